@@ -104,4 +104,14 @@ impl<T: tracing::Subscriber> tracing_subscriber::Layer<T> for GlobalEnable {
     ) -> bool {
         is_enabled()
     }
+
+    fn event_enabled(
+        &self,
+        _event: &tracing::Event<'_>,
+        _ctx: tracing_subscriber::layer::Context<'_, T>,
+    ) -> bool {
+        // `enabled` is only a pre-check: it is skipped for events dispatched directly and
+        // when a per-layer filter above this layer has cached the call site as always on
+        is_enabled()
+    }
 }
